@@ -308,6 +308,8 @@ DEFAULTS = dict(
     repeat_unchanged=0.1,
     trade_levels=(1, 1, 2, 3),
     market_time_offsets=(30_000, 600_000),
+    p_reschedule=0.0,  # the market time is moved by a marketDefinition delta (no image) before the off
+    reschedule_ms=(-20_000, -5_000, 5_000, 60_000),
 )
 
 
@@ -349,7 +351,7 @@ class Director:
             each_way_divisor=rng.choice((4, 5)) if market_type == "EACH_WAY" else None,
             bet_delay=rng.choice(p["pre_bet_delay"]),
             version=rng.randint(1000, 9000),
-            market_time_ms=t0 + rng.choice(p["market_time_offsets"]),
+            market_time_ms=self._set_mt0(t0 + rng.choice(p["market_time_offsets"])),
         )
         self.t = t0
         self.mid = {k: rng.randint(20, 250) for k in self.mf.keys}  # ladder index of the mid
@@ -483,6 +485,10 @@ class Director:
         for _ in range(repeat):
             self.mf.emit(self.step_time(), force_md=True)
 
+    def _set_mt0(self, ms):
+        self._market_time_ms0 = ms
+        return ms
+
     def reopen_after_close(self, ticks=(1, 4)):
         """a CLOSED market comes back: new image with the settled runners ACTIVE again (removed ones stay removed)"""
         mf = self.mf
@@ -498,7 +504,11 @@ class Director:
         n_pre = rng.randint(*p["n_pre"])
         susp_at = rng.randrange(1, n_pre) if (n_pre > 1 and rng.random() < p["p_suspend_reopen"]) else None
         rem_at = rng.randrange(1, n_pre) if (n_pre > 1 and rng.random() < p["p_removal"]) else None
+        resch_at = rng.randrange(1, n_pre) if (n_pre > 1 and rng.random() < p["p_reschedule"]) else None
         for i in range(n_pre):
+            if i == resch_at:
+                self.market_time_ms = getattr(self, "market_time_ms", self._market_time_ms0) + rng.choice(p["reschedule_ms"])
+                self.mf.emit(self.step_time(), md_changes={"marketTime": iso(self.market_time_ms), "suspendTime": iso(self.market_time_ms)})
             if i == susp_at:
                 self.suspend()
                 self.reopen()
